@@ -47,7 +47,7 @@ def task(version, fixed, label):
             if prob is not None:
                 O.must_not(sess, chk, g, "%s: %s score %s" % (label, names[i], prob), mk_replay)
         # rating of each reachable (score, rating) pair
-        pairs = vc.lift(lambda a, b: (a, b), [s, r], vc.CT, sess.it.sink)
+        pairs = sess.lift(lambda a, b: (a, b), [s, r])
         for g, (a, b) in vc.alts(pairs):
             if O.score_wellformed_problem(a, True) is not None:
                 continue
@@ -73,7 +73,7 @@ def task(version, fixed, label):
                         continue
                     pres = js.pres[key]
                     val = js.vals[key]
-                    pr = vc.lift(lambda a, b: (a, b), [val, sv[i]], vc.CT, sess.it.sink)
+                    pr = sess.lift(lambda a, b: (a, b), [val, sv[i]])
                     for g, (a, b) in vc.alts(pr):
                         if not isinstance(a, str) or a.upper() != str(b).upper():
                             gg = m.AND(g, pres.l)
